@@ -681,6 +681,19 @@ func (rp *replayPlan) evaluate(in *concreteInput, outJSON string) (violated []st
 	pe := &SpecEnv{fr: fr, st: fin, old: entry, vars: pv, pkg: ctx.Pkg, fn: fn, ghostLocal: gl}
 	for _, e := range c.Ensures {
 		t := pe.evalBool(e.E)
+		if os.Getenv("GCV_DEBUG_REPLAY") != "" {
+			fmt.Fprintf(os.Stderr, "replay-eval %s: %s\n", e.Name, t.String())
+			if t.IsFalse() {
+				for _, src := range strings.Split(os.Getenv("GCV_DEBUG_REPLAY"), ";") {
+					if pe2, err := parseSpec(src); err == nil {
+						func() {
+							defer func() { recover() }()
+							fmt.Fprintf(os.Stderr, "   %s = %s\n", src, pe.evalTerm(pe2).String())
+						}()
+					}
+				}
+			}
+		}
 		if t.IsTrue() {
 			continue
 		}
@@ -1310,6 +1323,10 @@ func cmdReplaySelftest(args []string) {
 				case r.Confirmed:
 					bad++
 					fmt.Printf("%-60s %-14s EVALUATOR-DISAGREES violated=%v source=%s\n", rel+"."+c.Func, p.label, r.Violated, r.Source)
+					if os.Getenv("GCV_DEBUG_REPLAY") != "" {
+						ib, _ := json.Marshal(r.Inputs)
+						fmt.Printf("    inputs %s\n    outputs %v\n", ib, r.Outputs)
+					}
 				default:
 					msg := r.Log
 					if i := strings.Index(msg, "\n"); i > 0 {
